@@ -72,7 +72,7 @@ pub fn strategy() -> BoxedStrategy<Choice> {
   (
     prop::collection::vec((0u8..6, 0u8..5, 0u8..11), 3..16),
     prop::collection::vec((0u8..6, 0u8..7, prop::option::weighted(0.5, globs()), prop::option::weighted(0.35, globs())), 1..7),
-    prop::collection::vec((0u8..5, 0u8..3), 0..=2),
+    prop::collection::vec((0u8..5, 0u8..8), 0..=2),
     prop::option::weighted(0.3, 0u8..5),
     prop::collection::vec((0u8..5, 0u8..7), 0..=2),
     prop::option::weighted(0.25, 0u8..4),
@@ -115,7 +115,12 @@ pub fn interpret(ch: &Choice, _st: &mut Stats) -> Option<Case> {
   let mut language_globs: BTreeMap<String, Vec<String>> = BTreeMap::new();
   let mut used = BTreeSet::new();
   for (l, e) in &ch.lang_globs {
-    let ext = FOREIGN[*e as usize % 3];
+    // a foreign extension, or the native extension of another built-in language (languageGlobs
+    // takes precedence over the built-in extension table)
+    let ext = if (*e as usize) < 3 { FOREIGN[*e as usize] } else { LANGS15[(*e as usize - 3) % 5].1 };
+    if LANGS15[*l as usize % LANGS15.len()].1 == ext {
+      continue;
+    }
     if used.insert(ext) {
       language_globs.entry(LANGS15[*l as usize % LANGS15.len()].0.to_string()).or_default().push(format!("*.{ext}"));
     }
